@@ -1,5 +1,11 @@
 import Gonuts.Model.Sexp
 import Gonuts.Model.Amount
+import Gonuts.Model.SpendDriver
+import Gonuts.Model.TokenDriver
+import Gonuts.Model.SelectDriver
+import Gonuts.Model.SpecDriver
+import Gonuts.Model.WireDriver
+import Gonuts.Model.WalletDriver
 /-!
   Line-protocol driver.  Reads one S-expression per line `(cmd arg…)`, answers one line.
   Stateless commands are dispatched by name; stateful sessions (mint model) live in `St`.
@@ -45,7 +51,18 @@ def step (st : St) (line : String) : St × String :=
       match arith cmd args with
       | some out => (st, out.render)
       | none => (st, "(bad-op)")
-    else (st, "(bad-op)")
+    else
+      let r :=
+        if cmd.startsWith "spend." then Model.SpendDriver.handle cmd args
+        else if cmd.startsWith "token." then Model.TokenDriver.handle cmd args
+        else if cmd.startsWith "select." then Model.SelectDriver.handle cmd args
+        else if cmd.startsWith "spec." then Model.SpecDriver.handle cmd args
+        else if cmd.startsWith "wire." then Model.WireDriver.handle cmd args
+        else if cmd.startsWith "wallet." then Model.WalletDriver.handle cmd args
+        else none
+      match r with
+      | some out => (st, out.render)
+      | none => (st, "(bad-op)")
   | _ => (st, "(bad-line)")
 
 partial def loop (h : IO.FS.Stream) (out : IO.FS.Stream) (st : St) : IO Unit := do
